@@ -65,7 +65,13 @@ type Sched struct {
 	Blocked   []string // pending operations of the threads that were blocked at a deadlock
 	OpLog     []string
 	keepLog   bool
-	Diverged  string
+	// locks taken during this execution: force-released at its end, so that a lock object that outlives the
+	// execution (package-level) never starts the next one locked
+	mtx      [512]*Mutex
+	nmtx     int
+	rwm      [512]*RWMutex
+	nrwm     int
+	Diverged string
 }
 
 type abortSentinel struct{}
@@ -124,6 +130,12 @@ func Run(prefix []int, maxDev int, keepLog bool, body func()) Result {
 			<-s.ack
 			raceEnable()
 		}
+	}
+	for i := 0; i < s.nmtx; i++ {
+		s.mtx[i].locked = false
+	}
+	for i := 0; i < s.nrwm; i++ {
+		s.rwm[i].writer, s.rwm[i].readers = false, 0
 	}
 	active = nil
 	raceAcquire(unsafe.Pointer(&s.tok))
